@@ -71,6 +71,7 @@ def check(F, R, Gm):
     tolerant_in_printer(F, R)
     num_spell(F, R)
     g_names(F, R, Gm)
+    t_domain_spell(F, R)
 
 
 # ---- SIGN-SPLIT ---------------------------------------------------------------------
@@ -315,3 +316,179 @@ def _derivable(name):
     # compound: split on single underscores that separate bodies; an underscore_literal body starts with "_"
     m = re.match(r"^(\$?_*[A-Za-z][A-Za-z0-9]*)?((?:_(?:_+[A-Za-z0-9]+|\$?_*[A-Za-z][A-Za-z0-9]*|[0-9]+(?:\.[0-9]+)?))+)$", name)
     return bool(m)
+
+
+# ---- NUM-FORMAT ---------------------------------------------------------------------------------------
+# The grammar's number rule has no exponent and no `inf`: a float that reaches re-parsed text must be written with the
+# decimal `{}` / `{:.N}` formatting (Rust's Display for f64 never uses an exponent; Debug and {:e} do).
+
+def printer_reach(F, roots):
+    """functions reachable from the given printer functions on the typed HIR, following resolved local callees and, for
+    every value that is formatted (`{}` argument, `.to_string()` receiver), the Display impl of every local type named in
+    its type"""
+    import re as _re
+    from interp import Interp
+    disp = Interp(F).display_impls
+    seen, todo = set(), [r for r in roots if F.fn(r) is not None]
+    while todo:
+        p = todo.pop()
+        if p in seen:
+            continue
+        seen.add(p)
+        f = F.fn(p)
+        if f is None or "body" not in f:
+            continue
+        for n in walk(f["body"]):
+            k = n.get("k")
+            if k in ("Call", "MCall"):
+                c = n.get("resolved") or n.get("callee")
+                if c and F.fn(c) is not None:
+                    todo.append(F.fn(c)["path"])
+            vals = []
+            if k == "Macro" and n.get("name") in ("format", "write", "writeln", "print", "println"):
+                vals = n.get("args", [])
+            if k == "MCall" and n.get("name") == "to_string":
+                vals = [n["recv"]]
+            for a in vals:
+                ty = F.ty(strip(a)) or ""
+                for t in _re.findall(r"[A-Za-z_][A-Za-z0-9_:]*", ty):
+                    if norm(t) in disp:
+                        todo.append(disp[norm(t)])
+    return seen
+
+
+def placeholder_args(node):
+    """[(hir arg node, format spec)] for every placeholder of a format-family macro node (None when not understood)"""
+    from interp import parse_format_snippet, unescape_rust_str, split_template
+    import re as _re
+    parts = parse_format_snippet(node.get("snippet", ""))
+    if parts is None:
+        return None
+    hir_args = list(node.get("args", []))
+    if node.get("name") in ("write", "writeln"):
+        parts = parts[1:]
+        hir_args = hir_args[1:]
+    if not parts:
+        return []
+    tmpl = unescape_rust_str(parts[0])
+    if tmpl is None:
+        return None
+    explicit = parts[1:]
+    named = {}
+    for i, src in enumerate(explicit):
+        m = _re.match(r"^([A-Za-z_][A-Za-z0-9_]*)\s*=[^=]", src)
+        if m:
+            named[m.group(1)] = i
+    captured = hir_args[len(explicit):]
+    out = []
+    pos = 0
+    for piece in split_template(tmpl):
+        if piece[0] == "lit":
+            continue
+        _, nm, spec = piece
+        idx = None
+        node_ = None
+        if nm is None:
+            idx = pos
+            pos += 1
+        elif nm.isdigit():
+            idx = int(nm)
+        elif nm in named:
+            idx = named[nm]
+        else:
+            for c in captured:
+                if strip(c).get("k") == "Path" and strip(c).get("name") == nm:
+                    node_ = c
+        if idx is not None and idx < len(hir_args):
+            node_ = hir_args[idx]
+        if node_ is None:
+            return None
+        out.append((node_, spec or ""))
+    return out
+
+
+def num_format(F, R, roots, rule="NUM-FORMAT"):
+    reach = printer_reach(F, roots)
+    R.count(rule + ".printer-functions", len(reach))
+    n_sites = 0
+    for p in sorted(reach):
+        f = F.fn(p)
+        if f is None or "body" not in f:
+            continue
+        for m in walk(f["body"]):
+            if m.get("k") != "Macro" or m.get("name") not in ("format", "write", "writeln", "print", "println"):
+                continue
+            has_float = any(base_ty(F.ty(strip(a)) or "") in ("f64", "f32") for a in m.get("args", []))
+            if not has_float:
+                continue
+            pa = placeholder_args(m)
+            if pa is None:
+                R.ob(rule, "%s:unparsable" % p, False, F.loc(f, m), "format string not understood at a float rendering site")
+                continue
+            for a, spec in pa:
+                if base_ty(F.ty(strip(a)) or "") not in ("f64", "f32"):
+                    continue
+                n_sites += 1
+                R.ob(rule, "%s:%s" % (p, sexp(strip(a))), _re_spec_ok(spec), F.loc(f, m), "float `%s` is written with `{%s}`: only the decimal Display form (optionally with a precision) is inside the grammar's number rule; Debug/LowerExp may print an exponent" % (sexp(strip(a)), (":" + spec) if spec else ""))
+    R.count(rule + ".float-sites", n_sites)
+
+
+def _re_spec_ok(spec):
+    import re as _re
+    return _re.fullmatch(r"(\+)?(\.\d+)?", spec or "") is not None
+
+
+# ---- T-DOMAIN-SPELL -----------------------------------------------------------------------------------
+# Display for VariableType touches its bounds only through comparisons with 0, +inf, -inf (and is_infinite): it is
+# evaluated by the table interpreter on one representative of every class, and every word it writes for an infinite bound
+# must be a standard-library constant whose value (extracted from the constant table) is that bound.
+
+def std_number_constants(F):
+    """name -> float for the numeric constants of the language's standard library (extracted from the typed HIR)"""
+    from interp import Interp, Var, Rope, is_unknown
+    I = Interp(F)
+    out = {}
+    for p, f in F.fns.items():
+        if "rooc_std" not in p or "body" not in f:
+            continue
+        for n in walk(f["body"]):
+            if n.get("k") == "Call" and norm(n.get("resolved") or n.get("callee") or "").endswith("Constant::from_primitive") and len(n["args"]) == 2:
+                nm = I.ev(n["args"][0], {})
+                v = I.ev(n["args"][1], {})
+                nm = nm.text() if isinstance(nm, Rope) else nm
+                if isinstance(nm, str) and isinstance(v, Var) and v.path.endswith("Primitive::Number") and isinstance(v.args[0], float):
+                    out[nm] = v.args[0]
+    return out
+
+
+def t_domain_spell(F, R):
+    from interp import Interp, Var, Rope, Leaf, is_unknown
+    VT = "math::math_enums::VariableType"
+    consts = std_number_constants(F)
+    inf = float("inf")
+    R.ob("T-DOMAIN-SPELL", "constants", inf in consts.values() and -inf in consts.values(), "packages/rooc/src/runtime_builtin/rooc_std.rs", "standard constants for the infinities: %s" % {k: v for k, v in consts.items() if abs(v) == inf})
+    I = Interp(F)
+    dp = I.display_impls.get(norm(VT))
+    if not R.ob("T-DOMAIN-SPELL", "anchor", dp is not None, "packages/rooc/src/math/math_enums.rs", "Display for VariableType found"):
+        return
+    R.fn(dp)
+    reps = [-inf, -1.5, 0.0, 2.5, inf]
+    for ctor, default in (("Real", (-inf, inf)), ("NonNegativeReal", (0.0, inf))):
+        for a in reps:
+            for b in reps:
+                if a > b or (ctor == "NonNegativeReal" and a < 0) or a == inf or b == -inf:
+                    continue  # only domains that contain a real number
+                r = I.display(Var("%s::%s" % (VT, ctor), [a, b]))
+                key = "%s(%r,%r)" % (ctor, a, b)
+                if is_unknown(r):
+                    R.ob("T-DOMAIN-SPELL", key, False, F.loc(F.fn(dp)), "not evaluable: %r" % (r,))
+                    continue
+                txt = "".join(x if isinstance(x, str) else "<%s>" % x.name for x in r.pieces)
+                want = []
+                for v in (a, b):
+                    if abs(v) == inf:
+                        want.append([k for k, c in consts.items() if c == v])
+                    else:
+                        want.append(["<f64:%r>" % v])
+                ok = any(txt == "%s(%s, %s)" % (ctor, x, y) for x in want[0] for y in want[1]) or (txt == ctor and (a, b) == default)
+                R.ob("T-DOMAIN-SPELL", key, ok, F.loc(F.fn(dp)), "domain %s with bounds (%r, %r) is written `%s`; each infinite bound must be the constant that denotes it (%s), and the bare type name stands for %s only" % (ctor, a, b, txt, want, default))
